@@ -161,6 +161,11 @@ def run(ctx):
     ctx.rule("R3", "the cleaning step of infer_redirection deletes control characters only: a printable character (a space inside the embedded target) deleted before the search makes the returned target differ from the one literally embedded in the url")
     from .c02 import control_chars_language
     control_chars_language(ctx, "R3")
+    # "the recursive result is what iterating the non-recursive call converges to" compares several calls: none may
+    # depend on the calls made before it
+    from . import common_state as ST
+    ST.rule_one_shot_iterators(ctx, "R5")
+    ST.rule_cache_keys(ctx, "R6")
 
 
 def _subst(t, old, new):
